@@ -4,6 +4,7 @@ verus! {
 #[verifier::external_body]
 #[verifier::reject_recursive_types(K)]
 #[verifier::reject_recursive_types(V)]
+#[derive(Debug)]
 pub struct Map<K, V> { k: core::marker::PhantomData<(K, V)> }
 pub trait JsonSchema {}
 }
